@@ -70,6 +70,10 @@ def final_marker(mode, n, last):
     """FinalBlockId carried by segment n.  'every': the true last segment in every Data; 'last': only in the last one; 'estimate': a
     producer that does not know the end yet announces a moving estimate (a later segment, never itself) until the real last segment,
     which names itself - the segment "designated final" is the one that names itself."""
+    if mode == 'early-only':
+        # the producer announces the final segment in the first segments only (segment 0 and 1) and never again: the consumer
+        # remembers what it was told
+        return SEG(last) if n <= 1 else None
     if mode == 'every' or n == last:
         return SEG(last)
     if mode == 'estimate':
@@ -217,7 +221,7 @@ def execute(sc):
 def gen_script(rng):
     n = rng.choice([0, 1, 1, 2, 3, 4, 5, 8])
     retry = rng.choice([1, 2, 3])
-    sc = {'n': n, 'retry': retry, 'version': rng.random() < 0.5, 'marker': rng.choice(['every', 'last', 'estimate', 'other-type']), 'fresh': rng.choice([10, 10, 0, None]),
+    sc = {'n': n, 'retry': retry, 'version': rng.random() < 0.5, 'marker': rng.choice(['every', 'last', 'estimate', 'other-type', 'early-only']), 'fresh': rng.choice([10, 10, 0, None]),
           'disc_answer': rng.randrange(n) if n else 0, 'loss': {}, 'fault': None,
           'name_form': rng.choice(['list', 'list', 'tuple', 'uri', 'encoded', 'generator', 'iterator', 'list-str']),
           'validator_via': rng.choice(['argument', 'argument', 'app-default']), 'ctype': rng.choice(['encoded', 'encoded', 'omitted']),
@@ -585,7 +589,7 @@ def run(ctx):
     for sc in templates + [gen_concurrent(rng) for _ in range(ctx.n(250, 80000))]:
         obs, S = execute_concurrent(sc)
         judge_concurrent(ctx, sc, obs, S)
-    for k in ('marker-estimate', 'marker-other-type', 'freshness-None', 'freshness-0', 'outcome-done', 'outcome-timeout', 'outcome-nack', 'outcome-valfail', 'concurrent-fetch', 'concurrent-outcome-done', 'concurrent-outcome-timeout',
+    for k in ('marker-estimate', 'marker-other-type', 'marker-early-only', 'freshness-None', 'freshness-0', 'outcome-done', 'outcome-timeout', 'outcome-nack', 'outcome-valfail', 'concurrent-fetch', 'concurrent-outcome-done', 'concurrent-outcome-timeout',
               'concurrent-data-shared-between-fetchers', 'one-shot-name-with-lost-discovery', 'validator-via-app-default', 'content-type-omitted', 'validator-form-lambda', 'validator-form-object', 'validator-form-partial'):
         ctx.need_event(k)
     ctx.assumptions = ['an object without any final-block marker is outside the statement', 'the legacy front-end is the one segment_fetcher uses']
